@@ -225,15 +225,15 @@ def check(spec, env):
     for (s, e) in (("A", a), ("B", b)):
         names = e[7]
         for (prefix, nm) in want:
-            if prefix == "ThreadPoolExecutor":
-                if nm is None:
-                    continue
-                ok = any(n.startswith("ThreadPoolExecutor-%s_" % nm) for n in names)
-            else:
-                ok = any(n == "%s-%s" % (prefix, nm) for n in names)
+            if nm is None or nm == "default":
+                continue   # the property speaks about names that were given
+            # "appears in the names of the threads those layers create": the layer's thread is
+            # recognised by its class prefix when present, the given name must appear in it
+            cands = [n for n in names if n.startswith(prefix)] or names
+            ok = any(nm in n for n in cands)
             if not ok:
                 out.append({"oracle": "names", "sig": "thread-name|%s|%s|%s" % (s, prefix, "bound" if s == "B" and spec["split"] < len(spec["chain"]) else "executor"),
-                            "msg": "side %s: expected a thread named %s-%s among %r; chain %r base name %r split %d" % (s, prefix, nm, names, spec["chain"], spec["base_name"], spec["split"])})
+                            "msg": "side %s: expected the name %r in the name of a %s thread, threads created: %r; chain %r base name %r split %d" % (s, nm, prefix, names, spec["chain"], spec["base_name"], spec["split"])})
                 break
     return out
 
